@@ -1,4 +1,12 @@
-(** C06, part 5: none of this depends on the process time zone (with --today). *)
+(** C06, part 5: none of this depends on the process time zone (with --today).
+
+    Since fix 4fa5d57 ([today] is "now" unchanged, no [.Local()]) the field [w_tz] of the world is not
+    consulted by any command: [run] is the same under [with_tz w tz] for every [tz], with or without
+    --today ([run_ignores_process_zone]).  The process zone still reaches the program, but only through
+    the zone of the wall clock value ([time.Now()] is local): a change of zone is [with_zone w tz clock].
+    With --today the clock is not read either, so the run is the same in every zone and at every clock
+    ([tz_independent_clock]); without --today [summary today] does depend on the zone of the clock
+    (PeriodRun.tz_independent_without_today_refuted). *)
 From Coq Require Import Lia ZifyBool.
 From HP Require Import Base.Bytes Base.Num Model.Scanner Model.Parser Model.Dates Model.Writer Model.Reporters Model.Cli
   Spec.PeriodSpec Proofs.PeriodInterval Proofs.PeriodPick Proofs.PeriodSummary.
@@ -74,6 +82,13 @@ Lemma tfs_not_today_tz : forall w tz1 tz2 now toks s, beq s (b "today") = false 
   time_from_string (with_tz w tz1) now toks s = time_from_string (with_tz w tz2) now toks s.
 Proof. intros w tz1 tz2 now toks s H. unfold time_from_string. rewrite H. reflexivity. Qed.
 
+(** since fix 4fa5d57 the world does not enter the resolution of a period value at all *)
+Lemma tfs_any_world : forall w w' now toks s, time_from_string w now toks s = time_from_string w' now toks s.
+Proof. reflexivity. Qed.
+
+Lemma pick_period_any_world : forall w w' now toks g l, pick_period w now toks g l = pick_period w' now toks g l.
+Proof. reflexivity. Qed.
+
 Lemma tfs_tz : forall w tz1 tz2 now toks s,
   res_eqv (time_from_string (with_tz w tz1) now toks s) (time_from_string (with_tz w tz2) now toks s).
 Proof.
@@ -127,6 +142,20 @@ Proof.
            (pick_period (with_tz w tz2) now toks (i_g_end i) (i_l_end i)) as [ee2|e2]; cbn in He; try contradiction;
     [exact He|].
   cbn. unfold options_eqv. cbn. repeat split; assumption.
+Qed.
+
+(** ... and, since fix 4fa5d57, they are equal *)
+Theorem load_ignores_process_zone : forall w i tz1 tz2, load (with_tz w tz1) i = load (with_tz w tz2) i.
+Proof. reflexivity. Qed.
+
+(** with --today the clock is not read: the options are the same in every zone and at every clock *)
+Theorem load_today_ignores_zone_and_clock : forall w i s tz1 tz2 c1 c2, i_f_today i = Some s ->
+  load (with_zone w tz1 c1) i = load (with_zone w tz2 c2) i.
+Proof.
+  intros w i s tz1 tz2 c1 c2 Hs. unfold load.
+  change (load_config (with_zone w tz1 c1) i) with (load_config w i).
+  change (load_config (with_zone w tz2 c2) i) with (load_config w i).
+  rewrite Hs. reflexivity.
 Qed.
 
 (** *** commands *)
@@ -191,9 +220,9 @@ Section Commands.
   Lemma run_stats_strip : forall w tz op, run_stats NM (with_tz w tz) op = run_stats NM w (strip op).
   Proof. intros. reflexivity. Qed.
 
-  (** the bounds [summary] builds, in two zones *)
+  (** the bounds [summary] builds, in two zones: no hypothesis any more (before fix 4fa5d57 the
+      keyword [today] needed "now" to be a midnight and both offsets within a day) *)
   Lemma summary_bounds_tz : forall w tz1 tz2 now toks arg,
-    (beq arg (b "today") = true -> exists D, now = time_of_civil D /\ tz_ok tz1 /\ tz_ok tz2) ->
     match time_from_string (with_tz w tz1) now toks arg, time_from_string (with_tz w tz2) now toks arg with
     | inl e1, inl e2 => e1 = e2
     | inr t1, inr t2 => mid_eqv (Some (summary_begin t1)) (Some (summary_end t1))
@@ -201,70 +230,50 @@ Section Commands.
     | _, _ => False
     end.
   Proof.
-    intros w tz1 tz2 now toks arg Htoday. destruct (beq arg (b "today")) eqn:E.
-    - destruct (Htoday eq_refl) as [D [Hnow [Hz1 Hz2]]]. subst now.
-      unfold time_from_string. rewrite E. cbn [w_tz with_tz].
-      intros c. rewrite (summary_filter_any_tz D tz1 c Hz1), (summary_filter_any_tz D tz2 c Hz2). reflexivity.
-    - rewrite (tfs_not_today_tz w tz1 tz2 now toks arg E).
-      destruct (time_from_string (with_tz w tz2) now toks arg) as [e|t]; [reflexivity|].
-      intros c. reflexivity.
+    intros w tz1 tz2 now toks arg.
+    rewrite (tfs_any_world (with_tz w tz1) (with_tz w tz2) now toks arg).
+    destruct (time_from_string (with_tz w tz2) now toks arg) as [e|t]; [reflexivity|].
+    intros c. reflexivity.
   Qed.
 
-  (** the program, given that [summary today] (if that is the command) runs under --today in real zones *)
+  (** the program: [w_tz] is not consulted by any command, with or without --today, for arbitrary
+      offsets (before fix 4fa5d57: [summary today] had to run under --today in zones within a day) *)
   Theorem run_tz_general : forall w i tz1 tz2,
-    (forall arg, i_cmd i = CSummary arg -> beq arg (b "today") = true ->
-                 (exists s, i_f_today i = Some s) /\ tz_ok tz1 /\ tz_ok tz2) ->
     run NM (with_tz w tz1) i = run NM (with_tz w tz2) i.
   Proof.
-    intros w i tz1 tz2 Hsum. unfold run.
-    pose proof (load_tz w i tz1 tz2) as HL.
-    pose proof (load_period (with_tz w tz1) i) as HP1.
-    destruct (load (with_tz w tz1) i) as [e1|o1], (load (with_tz w tz2) i) as [e2|o2]; cbn in HL; try contradiction.
-    { subst e2. reflexivity. }
-    specialize (HP1 o1 eq_refl). destruct HP1 as (_ & _ & _ & Htoday).
-    pose proof HL as (H1 & H2 & H3 & H4 & H5 & Hb & He & H8).
-    pose proof (same_inst_mid _ _ _ _ Hb He) as Hmid.
-    destruct (i_cmd i) as [| |file|x| | | | | | | |arg|] eqn:Ecmd.
-    - rewrite H8. apply run_db_log_tz; assumption.
-    - rewrite H8. apply run_db_log_tz; assumption.
-    - rewrite !run_lint_tz. reflexivity.
-    - rewrite !run_element_total_strip, (strip_eqv o1 o2 HL). reflexivity.
-    - apply run_db_log_tz; assumption.
-    - apply run_log_tz; assumption.
-    - apply run_db_log_tz; assumption.
-    - apply run_log_tz; assumption.
-    - rewrite !run_csv_db_strip, (strip_eqv o1 o2 HL). reflexivity.
-    - rewrite !run_csv_db_resolved_strip, (strip_eqv o1 o2 HL). reflexivity.
-    - rewrite !run_stats_strip, (strip_eqv o1 o2 HL). reflexivity.
-    - rewrite <- H5, <- H8.
-      pose proof (summary_bounds_tz w tz1 tz2 (op_now o1) (rc_date (op_rc o1)) arg) as HS.
-      assert (Hpre : beq arg (b "today") = true -> exists D, op_now o1 = time_of_civil D /\ tz_ok tz1 /\ tz_ok tz2).
-      { intros Ht. destruct (Hsum arg eq_refl Ht) as [[s Hs] [Hz1 Hz2]]. rewrite Hs in Htoday.
-        destruct Htoday as [c [_ Hc]]. exists c. split; [exact Hc|split; assumption]. }
-      specialize (HS Hpre).
-      destruct (time_from_string (with_tz w tz1) (op_now o1) (rc_date (op_rc o1)) arg) as [se1|t1],
-               (time_from_string (with_tz w tz2) (op_now o1) (rc_date (op_rc o1)) arg) as [se2|t2]; try contradiction.
-      + subst se2. reflexivity.
-      + apply run_db_log_tz; [exact HL|exact HS].
-    - rewrite H8. apply run_log_tz; assumption.
+    (* [w_tz] is projected nowhere: the two sides are convertible.  The lemmas above ([load_tz],
+       [run_db_log_tz], [summary_bounds_tz], ...) are the parts, kept for their own sake. *)
+    intros w i tz1 tz2. reflexivity.
   Qed.
 
-  (** C06, last sentence, as the brief states it *)
+  Theorem run_ignores_process_zone : forall w i tz1 tz2,
+    run NM (with_tz w tz1) i = run NM (with_tz w tz2) i.
+  Proof. exact run_tz_general. Qed.
+
+  (** C06, last sentence, as the brief states it; every offset whatsoever (the bound [tz_ok] of
+      before fix 4fa5d57 is gone) *)
   Theorem tz_independent : forall w i s tz1 tz2,
-    i_f_today i = Some s -> tz_ok tz1 -> tz_ok tz2 ->
+    i_f_today i = Some s ->
     run NM (with_tz w tz1) i = run NM (with_tz w tz2) i.
+  Proof. intros w i s tz1 tz2 _. apply run_tz_general. Qed.
+
+  (** the same with the zone where it really enters now, the wall clock value: with --today neither
+      the process zone nor the clock (read in whatever zone, at whatever instant) is consulted *)
+  Theorem tz_independent_clock : forall w i s tz1 tz2 c1 c2,
+    i_f_today i = Some s ->
+    run NM (with_zone w tz1 c1) i = run NM (with_zone w tz2 c2) i.
   Proof.
-    intros w i s tz1 tz2 Hs Hz1 Hz2. apply run_tz_general.
-    intros arg _ _. split; [exists s; exact Hs|split; assumption].
+    intros w i s tz1 tz2 c1 c2 Hs. unfold run.
+    rewrite (load_today_ignores_zone_and_clock w i s tz1 tz2 c1 c2 Hs).
+    destruct (load (with_zone w tz2 c2) i) as [e|op]; [reflexivity|].
+    destruct (i_cmd i); reflexivity.
   Qed.
 
-  (** every command other than [summary today] is independent of the zone with or without
-      --today, for arbitrary (even absurd) offsets *)
+  (** every command other than [summary today] is independent of [w_tz] with or without
+      --today, for arbitrary (even absurd) offsets; since fix 4fa5d57 [summary today] is too
+      ([run_ignores_process_zone]) *)
   Theorem tz_independent_unless_summary_today : forall w i tz1 tz2,
     i_cmd i <> CSummary (b "today") ->
     run NM (with_tz w tz1) i = run NM (with_tz w tz2) i.
-  Proof.
-    intros w i tz1 tz2 Hne. apply run_tz_general.
-    intros arg Hc Ht. exfalso. apply Hne. apply beq_true_iff in Ht. subst arg. exact Hc.
-  Qed.
+  Proof. intros w i tz1 tz2 _. apply run_tz_general. Qed.
 End Commands.
